@@ -255,9 +255,22 @@ fn input_json(inp: &Input) -> Value {
     Value::Array(inp.iter().map(|&(l, c)| json!(rc::hex_code(l, c, false))).collect())
 }
 
+fn def_text(d: &Def) -> String {
+    let l = d.len();
+    let u = |t: &rc::Units| format!("<{}>", rc::hex_units(t, false, false));
+    match d {
+        Def::Char { code, t, .. } => format!("bfchar <{}> {}", rc::hex_code(l, *code, false), u(t)),
+        Def::Range { lo, hi, t, .. } => format!("bfrange <{}> <{}> {}", rc::hex_code(l, *lo, false), rc::hex_code(l, *hi, false), u(t)),
+        Def::Array { lo, hi, ts, .. } => {
+            format!("bfrange <{}> <{}> [{}]", rc::hex_code(l, *lo, false), rc::hex_code(l, *hi, false), ts.iter().map(u).collect::<Vec<_>>().join(" "))
+        }
+    }
+}
+
 fn case_json(part: &str, defs: &[Def], sites: &[Site], script: &[usize], text: &[u8], inp: Option<&Input>) -> Value {
     let choices: Vec<Value> = sites.iter().enumerate().map(|(i, s)| json!([s.class, s.n, script.get(i).copied().unwrap_or(0)])).collect();
     json!({
+        "about": format!("{}{}", defs.iter().map(def_text).collect::<Vec<_>>().join(" | "), inp.map(|i| format!(" ; input {}", input_json(i))).unwrap_or_default()),
         "part": part,
         "defs": defs.iter().map(|d| d.to_json()).collect::<Vec<_>>(),
         "choices": choices,
@@ -562,7 +575,7 @@ fn main() {
     sweep(&run, &total, "seq1", menu, 1, Explore::Upto(d), None);
     sweep(&run, &total, "seq2", menu, 2, Explore::Upto(d), None);
     // 2. sequences of 3 definitions: all (thorough) or the residue class selected by the seed (quick)
-    let m3: u64 = 256;
+    let m3: u64 = 32;
     if t {
         sweep(&run, &total, "seq3", menu, 3, Explore::MergeOnly, None);
     } else {
